@@ -133,6 +133,9 @@ class Path:
         self.pc = []  # z3 Bool facts
         self.qhyps = []  # callables: term -> z3 Bool (universally quantified hypotheses)
         self.pool = []  # z3 Int terms used for instantiation
+        self.heap = {}  # (class qualname, field) -> z3 Array Int -> sort  (the symbolic heap)
+        self.alloc0 = None  # ids of input objects are in [1, alloc0); allocations are alloc0 + k
+        self.nalloc = 0
         self.term_maps = []  # functions deriving further instantiation terms from pool terms
         self.counter = 0
         self.obligations = []
@@ -419,17 +422,35 @@ class Path:
         return out
 
     def final_cover(self):
-        """Is the completed path's condition satisfiable (non-vacuity)?"""
-        # quick attempt on the incremental solver; a longer one only while no cover is known yet
+        """Is the completed path's condition satisfiable (non-vacuity)?
+
+        Two parts: the path condition itself must be satisfiable, and the path condition together
+        with the instantiated quantified hypotheses (what the VCs actually use) must not be
+        refutable by the solver within the VC budget - a contradiction the VCs could exploit is one
+        the solver finds within that budget."""
+        ok = False
         fs = self.__dict__.get("_fs")
         if fs is not None:
             self.feasible(True)
             try:
-                if fs.check() == z3.sat:
-                    return True
+                ok = fs.check() == z3.sat
             except Exception:
                 pass
-        if self.opts.get("have_cover"):
+        if not ok:
+            if self.opts.get("have_cover"):
+                return False
+            r, _ = self._check([], COVER_TIMEOUT_MS, inst=False)
+            ok = r == z3.sat
+        if not ok:
             return False
-        r, _ = self._check([], COVER_TIMEOUT_MS, inst=False)
-        return r == z3.sat
+        if self.qhyps:
+            deep = os.environ.get("PYVC_DEEP_COVERS") == "1"
+            if self.opts.get("have_cover") and not deep:
+                return False  # quick tier: one instantiated cover per contract; thorough tier: every path
+            if deep and not any(o.status == "unsat" for o in self.obligations):
+                return True  # nothing was proved on this path, so nothing can have been proved vacuously
+            r, _ = self._check([], VC_TIMEOUT_MS, inst=True)
+            if r == z3.unsat:
+                self.opts["vacuous_inst"] = self.opts.get("vacuous_inst", 0) + 1
+                return False
+        return True
